@@ -2,6 +2,7 @@ package main
 
 import (
 	"bytes"
+	"encoding/hex"
 	"encoding/json"
 	"fmt"
 	"strings"
@@ -508,6 +509,65 @@ func c13JudgeItems(c *mon.Ctx, in *c13Items) {
 		}
 		c.Count(c13ClassKey(len(it), "items"))
 		_ = i
+	}
+	// the script builders: one list, several single calls, the string and hex
+	// forms - onto an empty script and behind an existing prefix
+	total := 0
+	for _, it := range items {
+		total += len(it)
+	}
+	if total <= 200000 {
+		prefix := []byte{0x76, 0xa9}
+		for _, b := range []struct {
+			name string
+			f    func(s *bscript.Script) error
+		}{
+			{"AppendPushDataArray", func(s *bscript.Script) error { return s.AppendPushDataArray(items) }},
+			{"AppendPushData", func(s *bscript.Script) error {
+				for _, it := range items {
+					if e := s.AppendPushData(it); e != nil {
+						return e
+					}
+				}
+				return nil
+			}},
+			{"AppendPushDataHexString", func(s *bscript.Script) error {
+				for _, it := range items {
+					if e := s.AppendPushDataHexString(hex.EncodeToString(it)); e != nil {
+						return e
+					}
+				}
+				return nil
+			}},
+			{"AppendPushDataStrings", func(s *bscript.Script) error {
+				ss := make([]string, len(items))
+				for i, it := range items {
+					ss[i] = string(it)
+				}
+				return s.AppendPushDataStrings(ss)
+			}},
+			{"AppendPushDataString", func(s *bscript.Script) error {
+				for _, it := range items {
+					if e := s.AppendPushDataString(string(it)); e != nil {
+						return e
+					}
+				}
+				return nil
+			}},
+		} {
+			for _, pre := range [][]byte{nil, prefix} {
+				scr := bscript.Script(append(make([]byte, 0, len(pre)+3), pre...)) // spare capacity: an append must not write behind the caller's back
+				var berr error
+				if !c.Try("bscript.(*Script)."+b.name, func() { berr = b.f(&scr) }) {
+					continue
+				}
+				if berr != nil || !bytes.Equal(scr, append(append([]byte{}, pre...), want...)) {
+					c.Violationf("C13:encode:builder-differs:"+b.name, "%s of items with lens %v onto a %d-byte script: err=%v, result has %d bytes, prefix + minimal pushes have %d", b.name, in.Lens, len(pre), berr, len(scr), len(pre)+len(want))
+				} else {
+					c.Count("builders:agree")
+				}
+			}
+		}
 	}
 	var parts [][]byte
 	if !c.Try("bscript.DecodeParts", func() { parts, err = bscript.DecodeParts(enc) }) {
